@@ -611,8 +611,19 @@ func transientFrames(r *rand.Rand, allowAgain bool) []simFrame {
 	return out
 }
 
+// gap is what may sit between two frames the client waits for: unsolicited
+// records and runs of at most 9 transient failures, in any alternation (several
+// runs in one wait may add up to more than 9).
 func gap(r *rand.Rand) []simFrame {
-	return append(noiseFrames(r, 2), append(transientFrames(r, true), noiseFrames(r, 1)...)...)
+	out := noiseFrames(r, 2)
+	for seg := r.Intn(4); seg > 0; seg-- {
+		out = append(out, transientFrames(r, seg == 1)...)
+		out = append(out, simFrame{K: "msg", Type: 1300 + r.Intn(30), Rel: "zero", Payload: []int{1}})
+		if r.Intn(2) == 0 {
+			out = append(out, transientFrames(r, false)...)
+		}
+	}
+	return append(out, noiseFrames(r, 1)...)
 }
 
 var scriptErrnos = []int{0, 0, 0, 0, 1, 17, 22, 13, 2, 12, 16, 95}
